@@ -4,7 +4,7 @@ CHECKS["C17"] = dict(
     packages=[("internal/verif/c17", "harness/x/c17")],
     level="exploration",
     rule=("rapid generates histories over a gorp table (int32 keys 1..NK, NK<=12) with two LookupIndexes (fields A, B sharing a 3-4 value domain) "
-          "and a SortedIndex (field S, 3/4/16 values) on memkv: rows seeded before OpenTable (bulk populate, optionally without WaitForIndexes, optionally "
+          "and a SortedIndex (field S, 3/4/16 values) on memkv; every indexed domain contains the zero value of its type (\"\" for A/B, 0 for S), and a dedicated macro generates delete -> re-create (and set -> delete -> set) of one key inside one transaction with the re-created indexed values equal to the zero value, equal to the values before the delete, or fresh, followed by a positive or negated indexed query on the new value: rows seeded before OpenTable (bulk populate, optionally without WaitForIndexes, optionally "
           "with a refused populate scan), up to 3 interleaved transactions (open/commit/abort in any order; leftovers aborted), table-bound "
           "create/update/delete by key and through indexed filter trees on the DB handle or inside a transaction (set-delete-set on one key, same row in "
           "two transactions), batches that bypass the table and reach the indexes only through the change observer (DB-observer mode and "
